@@ -99,12 +99,14 @@ CHECKS = {
             "COMPLETENESS: every directory reachable from the origin through directories is visited (all its ignore files returned) or lies in / below "
             "a pruned directory, and a directory is pruned only as a VCS metadata directory, as unrelated to the watches, or because the filter of a walk "
             "state in which every directory above it had been visited ignores it (never the origin itself); the walk's filter is the initial filter plus "
-            "the discovered files in order; TERMINATION: the stack runs empty within the fuel from_origin provides. PARTIAL: listing-order independence is "
-            "checked (model under two listing orders against ignore_files::from_origin on generated trees), not proved. A closure check evaluated in Coq on "
+            "the discovered files in order; TERMINATION: the stack runs empty within the fuel from_origin provides; EXACTNESS: the result is the explicit / "
+            "origin-level files plus the ignore files of every open reachable directory, described without the walk; ORDER INDEPENDENCE: any permutation "
+            "of the listing gives the same set of files. The model is also run under two listing orders against ignore_files::from_origin on generated "
+            "trees. A closure check evaluated in Coq on "
             "the implementation's own result names missing / extra files. Four genuine defects found and repaired (nested VCS directories entered; negated "
             "pattern on a parent re-including a VCS directory; child checked before its parent's own ignore files were loaded; origin pruned by a lone *).",
             "Trusted: Coq kernel, harness; tokio fs calls, gix_config (core.excludesFile is a model input), the IgnoreFilter model of C03. No axioms.",
-            "Rocq/Coq invariant, completeness and termination proofs over the stack machine + differential correspondence under two listing orders + closure check",
+            "Rocq/Coq invariant, completeness, termination, exactness and order-independence proofs over the stack machine + differential correspondence + closure check",
             "DESIGN.md section 6 C14"),
     "C16": (True,
             "Coq proofs: Debug-name table round trip over the source-translated fs-kind family (all 41 kinds), Tag->SerdeTag->Tag identity "
